@@ -424,7 +424,8 @@ def tag_truth_sets(state, defs, streams):
 
 
 def conv_expected(cname, s):
-    return "%s#%s#%s\x00" % (cname, s["c"], s["s"])
+    # hex: a data filter without converter selector also searches converter output; hex never matches the data words
+    return "%s#%s#%s\x00" % (cname, s["c"].encode().hex(), s["s"].encode().hex())
 
 
 def check_scenario(scn, lines):
@@ -732,7 +733,10 @@ def model_cases(scn, lines, kfs, per_line):
         if k == "import":
             a = "import " + (",".join(map(str, act[1])) or "-")
         elif k == "addtag":
-            a = "addtag %d %s %d" % (rank(act[1]), spec_for(act[1], act[2], defs.get(act[2])), 0)
+            mk = act[1].startswith("mark/") or act[1].startswith("generated/")
+            tt = st["tags"].get(act[1])
+            a = "addtag %d %s %d" % (rank(act[1]), spec_for(act[1], act[2], parse_mark_def(act[2]) if mk else defs.get(act[2])),
+                                     bits(tt["m"]) if (mk and tt is not None and tt["def"] == act[2]) else 0)
         elif k == "addmark":
             d = ln.get("info") or "id:-1"
             ast = parse_mark_def(d)
@@ -824,23 +828,35 @@ def run_model(exe, text, tag):
 
 
 # ---------------------------------------------------------------------------- known findings
-def load_known(prop):
-    known, fixed = known_findings(prop)
-    if os.path.exists(LOCAL_KNOWN):
+KF_PROP = {"lost-inherited-invalidation": "C06", "idonly-added-streams": "C06", "reset-not-invalidated": "C16",
+           "inflight-update": "C16", "stale-view-store": "C16", "merge-not-restarted-after-convert": "C09"}
+OTHER_KNOWN = {"view-time-reftime": "C06", "convert-missing-stream-hang": "C09"}
+
+
+def load_known(prop=None):
+    """ids of the known findings of C06/C16/C09 (KNOWN_FINDINGS.txt + the development copy notes/C06.known.local)"""
+    ids, fixed = {}, []
+    if os.environ.get("VERIF_C06_KNOWN") is not None:      # development / mutation runs: exactly these ids
+        return {k: (KF_PROP.get(k) or OTHER_KNOWN.get(k)) for k in os.environ["VERIF_C06_KNOWN"].split(",") if k}, []
+    for pr in ("C06", "C16", "C09"):
+        kn, fx = known_findings(pr)
+        for k in kn:
+            ids[k.get("id")] = pr
+        if pr == prop:
+            fixed = fx
+    if os.path.exists(LOCAL_KNOWN) and not os.environ.get("VERIF_NO_LOCAL_KNOWN"):
         for line in open(LOCAL_KNOWN):
             line = line.strip()
-            if line.startswith("known:") and ("property=%s " % prop) in line + " ":
+            if line.startswith("known:"):
                 kv = dict(re.findall(r"(\w+)=(\S+)", line))
-                kv["text"] = line
-                if not any(k.get("id") == kv.get("id") for k in known):
-                    known.append(kv)
-    return known, fixed
+                ids.setdefault(kv.get("id"), kv.get("property"))
+    return ids, fixed
 
 
 # ---------------------------------------------------------------------------- shared run
 def scenarios_for(tier, seed):
     rng = random.Random(seed * 7919 + 6)
-    n = 120 if tier == "quick" else 2500
+    n = 150 if tier == "quick" else 3000
     out = []
     cdir = os.path.join(ROOT, "corpus")
     for prop in ("C06", "C16", "C09"):
@@ -850,7 +866,6 @@ def scenarios_for(tier, seed):
                 if fn.endswith(".json"):
                     s = json.load(open(os.path.join(d, fn)))["scenario"]
                     s["name"] = "corpus-%s-%s" % (prop, fn[:-5])
-                    s["defs"] = {k: to_ast(v) for k, v in s.get("defs", {}).items()}
                     out.append(s)
     for i in range(n):
         out.append(gen_scenario(rng, "g%04d" % i, rng.choice([12, 20, 30, 40])))
@@ -879,76 +894,177 @@ def shared_run(tier, seed):
         out = {"scenarios": scns, "results": res, "note": note, "go_s": dt, "wall_s": time.time() - t0, "key": key}
         json.dump(out, open(cache, "w"))
         for fn in os.listdir(RUNDIR):   # keep the directory small
-            p = os.path.join(RUNDIR, fn)
-            if fn.startswith("shared_") and p != cache and time.time() - os.path.getmtime(p) > 7200:
-                os.remove(p)
+            pth = os.path.join(RUNDIR, fn)
+            if fn.startswith("shared_") and pth != cache and time.time() - os.path.getmtime(pth) > 7200:
+                os.remove(pth)
         return json.load(open(cache))
+
+
+def model_exe():
+    return build_model("C06", "ExtractC06.v", os.path.join(ROOT, "ocaml/c06"), ["theories/Tags.v"])[0]
+
+
+def model_divergence(exe, scns, results, per_lines, kfs, tag):
+    """first diverging line index per scenario (None = the model follows the implementation to the end)"""
+    text, maps = [], []
+    for s in scns:
+        t, idxs = model_cases(s, results.get(s["name"], []), kfs, per_lines[s["name"]])
+        text += t
+        maps.append((s["name"], idxs))
+    out, err = run_model(exe, text, tag)
+    if out is None:
+        raise RuntimeError(err)
+    by, cur = {}, None
+    for l in out:
+        if l.startswith("S "):
+            cur = l[2:]
+            by[cur] = []
+        elif cur is not None:
+            by[cur].append(l)
+    div, detail, oks = {}, {}, 0
+    for name, idxs in maps:
+        div[name] = None
+        for j, l in enumerate(by.get(name, [])):
+            if l.startswith("OK"):
+                oks += 1
+            if l.startswith("DIVERGE"):
+                div[name] = idxs[j]
+                detail[name] = l
+                break
+    return div, detail, oks
+
+
+def diverging_fields(line):
+    e = line.split(" got=")[0][len("DIVERGE expected="):]
+    g = line.split(" got=")[1].split(" ;; ")[0]
+    fe = dict(x.split("=", 1) for x in e.split("|"))
+    fg = dict(x.split("=", 1) for x in g.split("|")) if "=" in g else {}
+    return sorted(k for k in fe if fe.get(k) != fg.get(k))
+
+
+FIELD_PROP = {"tags": "C06", "next": "C06", "tc": "C16", "ca": "C16", "j": "C09", "q": "C09", "ix": "C09", "me": "C09"}
+
+
+def analyse(shared, exe):
+    """oracle findings + model correspondence + attribution to known findings for the whole run"""
+    scns = shared["scenarios"]
+    for s in scns:
+        s["defs"] = {k: to_ast(v) for k, v in s.get("defs", {}).items()}
+    known, _ = load_known()
+    K = {k for k in known if k in KF_PROP}
+    allF, total, per_lines = [], {}, {}
+    for s in scns:
+        lines = shared["results"].get(s["name"], [])
+        if not lines:
+            allF.append(Finding("GT", "scenario-not-run", s["name"], -1, shared["note"][-400:]))
+            per_lines[s["name"]] = {}
+            continue
+        F, stats = check_scenario(s, lines)
+        per_lines[s["name"]] = check_scenario.per_line
+        allF += F
+        for k, v in stats.items():
+            total[k] = total.get(k, 0) + v
+    div, detail, oks = model_divergence(exe, scns, shared["results"], per_lines, K, "main")
+    failing = {f.scn for f in allF}
+    sub = [s for s in scns if s["name"] in failing]
+    without = {}
+    for kid in sorted(K):
+        without[kid], _, _ = model_divergence(exe, sub, shared["results"], per_lines, K - {kid}, "wo")
+    byscn = {}
+    for f in allF:
+        byscn.setdefault(f.scn, []).append(f)
+    res = {"known": {}, "viol": [], "gt": [f for f in allF if f.prop == "GT"], "div": div, "detail": detail, "oks": oks,
+           "total": total, "K": sorted(K), "known_ids": known}
+
+    def attribute(f):
+        """id of the known finding that explains f, or None"""
+        d = div.get(f.scn)
+        if d is not None and d <= f.li:
+            return None
+        if f.kind in ("stale-decided", "stale-output", "queued-after-detach", "missing-output-at-quiescence", "eligible-merge-not-started"):
+            resp = [kid for kid in sorted(K) if KF_PROP[kid] == f.prop and without[kid].get(f.scn) is not None and without[kid][f.scn] <= f.li]
+            return resp[0] if resp else None
+        if f.kind == "view-hastag":
+            lines = shared["results"][f.scn]
+            st = lines[f.li]["state"]
+            sid = f.detail["stream"]
+            stale = {x.detail["tag"]: attribute(x) for x in byscn[f.scn] if x.kind == "stale-decided" and x.li == f.li}
+            cause = None
+            for T in set(f.detail["has"]) ^ set(f.detail["truth"]):
+                c = root_cause(T, st, stale, ())
+                if c is None:
+                    return None
+                cause = cause or c
+            return cause if cause in known else None
+        if f.kind == "hang-or-panic" and "convert-missing-stream-hang" in known:
+            lines = shared["results"][f.scn]
+            prev = [l for l in lines[:f.li + 1] if l.get("state")]
+            if "HANG job body convert" in str(f.detail) and prev:
+                st = prev[-1]["state"]
+                if any(t["conv"] and any(i >= st["next"] for i in t["m"]) for t in st["tags"].values()):
+                    return "convert-missing-stream-hang"
+        return None
+
+    def root_cause(T, st, stale, seen):
+        t = st["tags"].get(T)
+        if t is None or T in seen:
+            return None
+        if T in stale:
+            return stale[T]          # the view shows what the manager decided (wrongly): same cause
+        if "ltime" in t["def"] and t["u"]:
+            return "view-time-reftime"
+        for r in t["mt"] + t["st"]:
+            c = root_cause(r, st, stale, seen + (T,))
+            if c:
+                return c
+        return None
+    for f in allF:
+        if f.prop == "GT":
+            continue
+        kid = attribute(f)
+        if kid:
+            res["known"].setdefault((f.prop, kid), []).append(f)
+        else:
+            res["viol"].append(f)
+    return res, {s["name"]: s for s in scns}
 
 
 def main_for(PROP, tier, seed, replay=None):
     t0 = time.time()
     sys.setrecursionlimit(10000)
-    proof = None
-    if os.path.exists(os.path.join(COQ, "props", PROP + ".v")):
-        proof = Proof(PROP)
+    proof = Proof(PROP) if os.path.exists(os.path.join(COQ, "props", PROP + ".v")) else None
+    exe = model_exe()
     if replay:
-        obj = json.load(open(replay))
-        scn = obj["scenario"]
-        scn["defs"] = {k: to_ast(v) for k, v in scn.get("defs", {}).items()}
-        res, note, _ = run_harness([scn], "replay")
-        lines = res.get(scn["name"], [])
-        F, stats = check_scenario(scn, lines)
-        for ln in lines:
-            print(json.dumps({k: ln.get(k) for k in ("i", "act", "res", "info")}))
-            if ln.get("state"):
-                print("   tags", {k: (v["def"], v["m"], v["u"], v["conv"]) for k, v in ln["state"]["tags"].items()},
-                      "toconv", ln["state"]["toconv"], "cache", ln["state"]["cache"], "jobs", ln["state"]["jobs"])
-        for f in F:
-            print("FINDING", json.dumps(f.as_dict()))
-        return 1 if any(f.prop in (PROP, "GT") for f in F) else 0
+        return do_replay(PROP, replay, exe)
     shared = shared_run(tier, seed)
-    scns = {s["name"]: s for s in shared["scenarios"]}
-    for s in scns.values():
-        s["defs"] = {k: to_ast(v) for k, v in s["defs"].items()}
-    allF, total = [], {}
-    for name, s in scns.items():
-        lines = shared["results"].get(name, [])
-        if not lines:
-            allF.append(Finding("GT", "scenario-not-run", name, -1, shared["note"][-400:]))
-            continue
-        F, stats = check_scenario(s, lines)
-        allF += F
-        for k, v in stats.items():
-            total[k] = total.get(k, 0) + v
-    known, fixed = load_known(PROP)
+    res, scns = analyse(shared, exe)
     nviol = 0
-    mine = [f for f in allF if f.prop == PROP]
-    gt = [f for f in allF if f.prop == "GT"]
-    # classify
-    known_hits = {}
-    viol = []
-    for f in mine:
-        kid = classify_known(f, scns[f.scn], shared["results"].get(f.scn, []), known)
-        if kid:
-            known_hits.setdefault(kid, []).append(f)
-        else:
-            viol.append(f)
-    for kid, fs in sorted(known_hits.items()):
-        print("KNOWN-FINDING: property=%s id=%s %s (%d occurrences, first: scenario %s step %d)" %
-              (PROP, kid, fs[0].kind, len(fs), fs[0].scn, fs[0].step), flush=True)
-    if viol:
-        f = viol[0]
-        scn = scns[f.scn]
-        small = minimise(scn, f, PROP, known)
-        violation(PROP, {"property": PROP, "finding": f.as_dict(), "scenario": strip_scn(small), "seed": seed,
-                         "others": [x.as_dict() for x in viol[1:6]], "n_failing": len(viol),
+    _, fixed = load_known(PROP)
+    for (pr, kid), fs in sorted(res["known"].items()):
+        if pr == PROP:
+            print("KNOWN-FINDING: property=%s id=%s %s (%d observations in %d scenarios, first: scenario %s step %d)" %
+                  (PROP, kid, fs[0].kind, len(fs), len({f.scn for f in fs}), fs[0].scn, fs[0].step), flush=True)
+    mine = [f for f in res["viol"] if f.prop == PROP]
+    # a scenario where the model stops following the implementation, attributed by the projection field that differs
+    mdiv = [(n, l) for n, l in sorted(res["detail"].items()) if PROP in {FIELD_PROP.get(k, "C06") for k in diverging_fields(l)}]
+    if mine:
+        f = mine[0]
+        small = minimise(scns[f.scn], f, PROP, exe)
+        violation(PROP, {"property": PROP, "finding": f.as_dict(), "scenario": small, "seed": seed,
+                         "model": res["detail"].get(f.scn, "model follows the implementation on this scenario")[:1500],
+                         "others": [x.as_dict() for x in mine[1:6]], "n_failing": len(mine),
                          "replay_cmd": "bin/check %s --replay <this file>" % PROP})
         nviol += 1
-    elif gt or shared["note"]:
-        f = gt[0] if gt else None
+    elif res["gt"] or shared["note"]:
+        f = res["gt"][0] if res["gt"] else None
         violation(PROP, {"property": PROP, "broken": "scenario harness could not run / ground truth unusable on this tree",
                          "note": shared["note"][-1500:], "first": f.as_dict() if f else None,
-                         "scenario": strip_scn(scns[f.scn]) if f and f.scn in scns else None}, no_input=True)
+                         "scenario": scns.get(f.scn) if f else None}, no_input=True)
+        nviol += 1
+    elif mdiv:
+        n, l = mdiv[0]
+        violation(PROP, {"property": PROP, "broken": "correspondence: the extracted model (theories/Tags.v, switches %s) does not follow the implementation although no oracle fails; the theorems of props/%s.v no longer cover this tree" % (res["K"], PROP),
+                         "scenario": scns[n], "divergence": l[:3000], "fields": diverging_fields(l), "n_diverging": len(mdiv)}, no_input=True)
         nviol += 1
     if proof is not None and not proof.good() and nviol == 0:
         violation(PROP, {"property": PROP, "broken": proof.failure_text(), "searched_scenarios": len(scns)}, no_input=True)
@@ -962,108 +1078,83 @@ def main_for(PROP, tier, seed, replay=None):
         "trusted_base": TRUSTED_COMMON + [
             "gate hook verifGate in manager.go (commit 913d8a0), gate controller + forwarding job channel of harness/c06 (closures are attributed to jobs by the name of their enclosing function)",
             "ground truth = generator's UDP flows (client = sender of the earliest packet, payload = concatenation per direction); checked against the implementation's streams at every step",
-            "tag definitions restricted to the generated family (id, port, host, data, ltime, main-tag reference, sub-query reference, not/and/or)",
-            "deterministic converter script (python3) written by the harness: output = name#clientbytes#serverbytes"],
-        "evaluations": total.get("steps", 0),
+            "tag definitions restricted to the generated family (id, port, host, data, ltime, main-tag reference, sub-query reference, not/and/or); mark tags only over existing streams",
+            "deterministic converter script (python3) written by the harness: output = name#hex(clientbytes)#hex(serverbytes)",
+            "model responses (import result masks, search result of a tagging job) are computed by the Python side from the ground truth and the job's snapshot dump"],
+        "evaluations": res["total"].get("steps", 0),
         "distinct_nontrivial": len({json.dumps(s["actions"]) for s in scns.values() if len(s["actions"]) >= 8}),
-        "rule": "seeded scenarios (12-40 actions + final settle) on a real Manager with every background job parked at its start/done gates; non-trivial = >= 8 actions, distinct by action list; oracles evaluated after every action",
+        "rule": "seeded scenarios (12-40 actions + final settle) on a real Manager with every background job parked at its start/done gates; non-trivial = >= 8 actions, distinct by action list; three oracles after every action; extracted model replayed action by action (set simulation over the tagging-job choice)",
         "scenarios": len(scns),
         "action_distribution": acts,
-        "oracle_stats": total,
-        "known_findings_hit": {k: len(v) for k, v in known_hits.items()},
+        "oracle_stats": res["total"],
+        "model_steps_equal": res["oks"],
+        "model_diverging_scenarios": len(res["detail"]),
+        "model_switches_faithful": res["K"],
+        "known_findings_hit": {"%s/%s" % k: len(v) for k, v in res["known"].items()},
         "fixed_findings": fixed,
         "harness_wall_s": shared["wall_s"],
-        "samples": [strip_scn(list(scns.values())[-1])["actions"][:12]],
+        "samples": [list(scns.values())[-1]["actions"][:12]],
         "disagreements": nviol,
     })
     write_evidence(PROP, tier, seed, cov,
                    ["job bodies terminate (converter processes answer, query parsing terminates)",
-                    "no goroutine preemption inside a service-loop closure matters (C20)"],
+                    "no goroutine preemption inside a service-loop closure matters (C20)",
+                    "the reference graph of tags respects a fixed ranking of tag names (model); C11 owns acyclicity"],
                    time.time() - t0, nviol)
     return 1 if nviol else 0
 
 
-def strip_scn(s):
-    return {k: v for k, v in s.items()}
+def analyse_one(scn, exe, tag):
+    res, note, _ = run_harness([scn], tag, timeout=180)
+    shared = {"scenarios": [scn], "results": res, "note": note, "wall_s": 0}
+    return analyse(shared, exe), shared
 
 
-def classify_known(f, scn, lines, known):
-    """a finding is attributed to a known finding only by its specific shape (see notes/C06.md, C16.md, C09.md)"""
-    ids = {k.get("id") for k in known}
-    if f.prop == "C06" and f.kind in ("stale-decided", "view-hastag") and "lost-inherited-invalidation" in ids:
-        if f.kind == "stale-decided" and lost_inherited_shape(f, scn, lines):
-            return "lost-inherited-invalidation"
-    if f.prop == "C16" and f.kind == "stale-output":
-        k = stale_output_shape(f, scn, lines)
-        if k and k in ids:
-            return k
-    if f.prop == "C09" and f.kind == "eligible-merge-not-started" and "merge-not-restarted-after-convert" in ids:
-        return "merge-not-restarted-after-convert"
-    return None
-
-
-def lost_inherited_shape(f, scn, lines):
-    """the stale tag references another tag, and at the step where it became stale a tagging job completion
-    published it while (during that job) a referenced tag changed (mark add/del, query update)"""
-    d = f.detail
-    if not d.get("refs"):
-        return False
-    # find first step at which this (tag, stream) is decided-and-wrong ; must be a tag.done step
+def do_replay(PROP, replay, exe):
+    obj = json.load(open(replay))
+    scn = obj["scenario"]
+    scn["name"] = scn.get("name", "replay")
+    (res, scns), shared = analyse_one(scn, exe, "replay")
+    lines = shared["results"].get(scn["name"], [])
     for ln in lines:
-        if ln["i"] == f.step:
-            act, res = ln["act"], ln["res"]
-            if act[0] in ("step", "stepkind") and res == "tag.done":
-                return True
-            if act[0] == "settle" and "tag.done" in (ln.get("info") or {}).get("order", []):
-                return True
-            # still stale from an earlier step: follow back
-            return stale_since_tag_done(f, lines)
-    return False
+        print(json.dumps({k: ln.get(k) for k in ("i", "act", "res", "info")}))
+        if ln.get("state"):
+            print("   impl: tags", {k: (v["def"], v["m"], v["u"], v["conv"]) for k, v in ln["state"]["tags"].items()},
+                  "toconv", ln["state"]["toconv"], "cache", ln["state"]["cache"], "jobs", ln["state"]["jobs"])
+    print("model (faithful switches %s): %s" % (res["K"], res["detail"].get(scn["name"], "follows the implementation on every step")))
+    per = {scn["name"]: check_scenario.per_line}
+    d2, det2, _ = model_divergence(exe, [scn], shared["results"], per, set(), "replay_rep")
+    print("model (repaired, all switches off): %s" % (det2.get(scn["name"], "follows the implementation on every step")[:600]))
+    for (pr, kid), fs in sorted(res["known"].items()):
+        print("KNOWN-FINDING: property=%s id=%s %s x%d" % (pr, kid, fs[0].kind, len(fs)))
+    bad = [f for f in res["viol"] if f.prop == PROP] + res["gt"]
+    for f in bad[:10]:
+        print("FINDING", json.dumps(f.as_dict()))
+    return 1 if bad else 0
 
 
-def stale_since_tag_done(f, lines):
-    d = f.detail
-    first = None
-    for ln in lines:
-        st = ln.get("state")
-        if not st or ln["i"] > f.step:
-            break
-        t = st["tags"].get(d["tag"])
-        if t is None or t["def"] != d["def"]:
-            first = None
-            continue
-        bad = d["stream"] not in t["u"] and ((d["stream"] in t["m"]) == d["in_matches"])
-        if bad and first is None:
-            first = ln
-        if not bad:
-            first = None
-    if first is None:
-        return False
-    act, res = first["act"], first["res"]
-    return (act[0] in ("step", "stepkind") and res == "tag.done") or (act[0] == "settle" and "tag.done" in (first.get("info") or {}).get("order", []))
-
-
-def stale_output_shape(f, scn, lines):
-    return None
-
-
-def minimise(scn, f, prop, known):
-    """ddmin over the action list (the final settle is kept); same property + same kind must fail"""
+def minimise(scn, f, prop, exe):
+    """ddmin over the action list (the final settle is kept); an unexplained finding of the same property + kind must remain"""
     acts = scn["actions"]
 
-    def fails(sub):
+    def build(sub):
         s = dict(scn)
         s["actions"] = list(sub) + ([acts[-1]] if (not sub or sub[-1][0] != "settle") else [])
         s["name"] = "min"
-        res, note, _ = run_harness([s], "min", timeout=120)
-        F, _ = check_scenario(s, res.get("min", []))
-        return any(x.prop == prop and x.kind == f.kind and not classify_known(x, s, res.get("min", []), known) for x in F)
+        return s
+
+    def fails(sub):
+        try:
+            (res, _), _ = analyse_one(build(sub), exe, "min")
+        except Exception:
+            return False
+        return any(x.prop == prop and x.kind == f.kind for x in res["viol"])
     try:
-        small = ddmin(list(acts), fails, max_tests=60)
+        small = ddmin(list(acts), fails, max_tests=40)
     except Exception:
         small = acts
-    s = dict(scn)
-    s["actions"] = list(small) + ([acts[-1]] if (not small or small[-1][0] != "settle") else [])
+    s = build(small)
+    s["name"] = scn["name"] + "-min"
     return s
 
 
